@@ -211,7 +211,7 @@ def run(ctx):
         idc = [(b, t) for b, t in ctx.find_calls(f, r"^<proc_macro2::Ident as darling_core::usage::type_params::UsesTypeParams>::uses_type_params$")]
         ctx.ob("C19.G.ident-hit-shape", f.key, "one ident lookup", len(idc) == 1, "%d" % len(idc))
         for b, t in idc:
-            ctx.requires("C19.G.leading-segment-only-if-not-global", f, b, "segments[0].ident lookup", [r"is_some\(self\.leading_colon\)=False", r"is_empty\(self\.segments\)=False"])
+            ctx.requires("C19.G.leading-segment-only-if-not-global", f, b, "segments[0].ident lookup", [r"is_some\(self\.leading_colon\)=False", ("ne", r"^len\(self\.segments\)$", 0)])
             a0 = ctx.expr(f, t["args"][0])
             ctx.ob("C19.G.first-segment", f.key, "segment index", re.search(r"index\(self\.segments, 0_usize\)\.ident$", a0) is not None, a0[:120])
         fold = ctx.find_calls(f, r"Iterator>::fold|Iterator::fold")
@@ -227,7 +227,7 @@ def run(ctx):
                 if f.is_cleanup(blk) or blk not in reach or blk == fold[0][0]:
                     continue
                 ds = ctx.pc_strs(f, blk)
-                if not (ds and all(ctx._sat(d, r"is_empty\(self\.segments\)=True") for d in ds)):
+                if not (ds and all(ctx._sat(d, r"^len\(self\.segments\)=0$") for d in ds)):
                     bypass.append((blk, [sorted(d) for d in ds]))
             ctx.ob("C19.P.no-return-bypasses-argument-walk", f.key, "returns that skip the segment-argument walk", not bypass,
                    "a result is returned without walking the generic arguments of the segments under %s" % bypass)
